@@ -85,6 +85,17 @@ theorem pythiaStage_noerr (cfg : Cfg) (hc : cfg.shortDeliveryOk = true) (hc2 : c
     · rfl
     · exact createStage_noerr cfg hc _ _ _ _ _
 
+theorem suggestRest_noerr (cfg : Cfg) (hc : cfg.shortDeliveryOk = true) (hc2 : cfg.suggestCatchesAll = true)
+    (op0 : SugOp) (st : Study) (client : String) (count : Nat) (alg : AlgOutcome) :
+    (suggestRest cfg op0 st client count alg).1.isError = false := by
+  unfold suggestRest
+  simp only
+  split
+  · rfl
+  · split
+    · rfl
+    · exact pythiaStage_noerr cfg hc hc2 _ _ _ _ _
+
 /-- with the repaired service `SuggestTrials` never answers with an error once the study checks passed:
     every algorithm failure is reported inside a finished operation -/
 theorem suggestBody_noerr (cfg : Cfg) (hc : cfg.shortDeliveryOk = true) (hc2 : cfg.suggestCatchesAll = true)
@@ -93,12 +104,10 @@ theorem suggestBody_noerr (cfg : Cfg) (hc : cfg.shortDeliveryOk = true) (hc2 : c
   unfold suggestBody
   simp only
   split
-  · rfl
   · split
+    · exact suggestRest_noerr cfg hc hc2 _ _ _ _ _
     · rfl
-    · split
-      · rfl
-      · exact pythiaStage_noerr cfg hc hc2 _ _ _ _ _
+  · exact suggestRest_noerr cfg hc hc2 _ _ _ _ _
 
 def Req.isEarlyStop : Req → Bool
   | .checkEarlyStop .. => true
